@@ -226,7 +226,8 @@ struct Built {
 fn text_string(r: &mut StdRng, c: &str) -> String {
     match c {
         "plain" => (0..r.gen_range(1..9)).map(|_| (b'a' + r.gen_range(0..26)) as char).collect(),
-        "reserved" => ["a b&c=d", "q?x#y", "100%", "a;b,c", "\"quoted\"", "<tag>", "semi;colon", "at@sign:colon", "[br]{ace}", "%41", "a%2Fb", "%25", "%zz%"][r.gen_range(0..13)].to_string(),
+        "reserved" => ["a b&c=d", "q?x#y", "100%", "a;b,c", "\"quoted\"", "<tag>", "semi;colon", "at@sign:colon", "[br]{ace}", "%41", "a%2Fb", "%25", "%zz%",
+            "user+tag@example.com", "c++", "2024-01-01T00:00:00+00:00", "a+b c", "(x)!*'$"][r.gen_range(0..18)].to_string(),
         "unicode" => ["é", "日本語", "😀 smile", "ñandú", "\u{200b}zero-width", "Ω≈ç√"][r.gen_range(0..6)].to_string(),
         "long" => "x".repeat(r.gen_range(2000..4000)),
         "slashes" => ["a/b", "/lead", "trail/", "a//b", "../up"][r.gen_range(0..5)].to_string(),
@@ -301,6 +302,9 @@ fn enc_query_component(r: &mut StdRng, s: &str) -> String {
         if b == b' ' {
             out.push_str(if r.gen_bool(0.5) { "+" } else { "%20" });
         } else if (b.is_ascii_alphanumeric() || b"-_.~".contains(&b)) && !r.gen_bool(0.05) {
+            out.push(b as char);
+        } else if b":@/?!$'()*,;".contains(&b) && r.gen_bool(0.3) {
+            // legal unencoded in a query (RFC 3986) and without meaning in form encoding
             out.push(b as char);
         } else if r.gen_bool(0.5) {
             out.push_str(&format!("%{:02x}", b));
